@@ -102,6 +102,8 @@ C = [
   [("pkg/network/message.go", "\tm.Flags &^= Compressed\n\tif enableCompression {", "\tif m.Flags&Compressed == 0 && enableCompression {")]),
  ("C09-memory-backward-drops-extensions", "C09", "seek-orientation", "the memory layer's backward filter drops keys extending the start (the repaired defect)",
   [("pkg/core/storage/memcached_store.go", " || strings.HasPrefix(key[lPrefix:], sStart))", ")")]),
+ ("C06-duplicate-transactions-unchecked", "C06", "accept-dominators", "AddBlock no longer rejects a repeated transaction (the repaired defect)",
+  [("pkg/core/blockchain.go", "\t\t\tif _, ok := seen[tx.Hash()]; ok {\n\t\t\t\treturn fmt.Errorf(\"invalid block: duplicate transaction %s\", tx.Hash().StringLE())\n\t\t\t}\n", "")]),
 ]
 
 root = "/verif/controls"
